@@ -226,7 +226,7 @@ pub fn expr(e: &syn::Expr) -> J {
         Repeat(r) => node("Repeat", vec![("e", expr(&r.expr)), ("len", expr(&r.len))]),
         Cast(c) => node("Cast", vec![("e", expr(&c.expr)), ("ty", s(&toks(&c.ty)))]),
         Array(a) => node("Array", vec![("elems", J::A(a.elems.iter().map(expr).collect()))]),
-        Closure(c) if c.capture.is_none() && c.asyncness.is_none() => node(
+        Closure(c) if c.asyncness.is_none() => node(
             "Closure",
             vec![("inputs", J::A(c.inputs.iter().map(pat).collect())), ("body", expr(&c.body))],
         ),
